@@ -3,6 +3,7 @@ package c19
 import (
 	"fmt"
 	"os"
+	"sort"
 	"strconv"
 	"strings"
 	"testing"
@@ -47,7 +48,7 @@ func TestDebugScript(t *testing.T) {
 		slot, _ := strconv.Atoi(e[i+1:])
 		sc = append(sc, schedEv{op: op, kind: e[i], slot: slot})
 	}
-	o := runOpts{cancel: os.Getenv("C19_CANCEL"), racy: os.Getenv("C19_RACY") == "1"}
+	o := runOpts{cancel: os.Getenv("C19_CANCEL"), racy: os.Getenv("C19_RACY") == "1", wire: os.Getenv("C19_WIRE") == "1"}
 	if o.cancel == "" {
 		o.cancel = "v2"
 	}
@@ -128,4 +129,38 @@ func TestCountRuns(t *testing.T) {
 		w, r, cp := count(c.p, c.a, c.lo, c.hi, c.all, c.limit)
 		fmt.Printf("%-24s words=%d runs=%d capped=%d\n", c.name, w, r, cp)
 	}
+}
+
+func TestSlowWords(t *testing.T) {
+	if os.Getenv("C19_SLOW") == "" {
+		t.Skip()
+	}
+	p, alpha := protoGWS, gwsAlphabet
+	if os.Getenv("C19_P") == "tws" {
+		p, alpha = protoTWS, twsAlphabet
+	}
+	type rec struct {
+		w string
+		d time.Duration
+	}
+	var recs []rec
+	n := 3
+	total := time.Duration(0)
+	for i := 0; i < numWords(len(alpha), n); i += 7 {
+		w := wordAt(alpha, n, i)
+		sc, _ := fixedSchedules(p, w, quickFamily)
+		t0 := time.Now()
+		for _, s := range sc {
+			runScript(p, w, s, runOpts{cancel: "v2"})
+		}
+		d := time.Since(t0) / time.Duration(len(sc))
+		total += time.Since(t0)
+		recs = append(recs, rec{wordString(w), d})
+	}
+	sort.Slice(recs, func(i, j int) bool { return recs[i].d > recs[j].d })
+	fmt.Println("total", total, "words", len(recs))
+	for _, r := range recs[:15] {
+		fmt.Println(r.d, r.w)
+	}
+	fmt.Println("median", recs[len(recs)/2].d, recs[len(recs)/2].w)
 }
